@@ -1065,7 +1065,9 @@ class HttpPayloadParser:
 
                         if not re.fullmatch(HEXDIGITS, size_b):
                             exc = TransferEncodingError(
-                                chunk[:pos].decode("ascii", "surrogateescape")
+                                # Must stay encodable: the server puts it
+                                # in the body of the 400 response.
+                                chunk[:pos].decode("ascii", "backslashreplace")
                             )
                             set_exception(self.payload, exc)
                             raise exc
